@@ -876,6 +876,12 @@ func (c *Ctx) verifyDepth(t *esTemplate, v *esVerdicts) {
 	}
 	want := linConst(1)
 	what := "leaves exactly one value"
+	if c.es != nil && c.es.recursiveHelper(t.fn) {
+		// a recursive helper of a form generator (what used to be, or could be, a local recursive closure:
+		// the walker over the file names of an include): it is not a form, and how many values one call of it
+		// leaves depends on the shape of its argument; its callers' forms are judged, as with a closure
+		return
+	}
 	switch {
 	case t.fn == "Generator.GenerateAll" || t.fn == "Generator.GenerateCallArgsForFunction":
 		// n values by contract (the callers account for them: Call[n] / PrepareCall[n])
